@@ -118,10 +118,18 @@ func checkC09(r *core.Run) {
 		sc   string
 		race bool
 		free bool
+		cold bool // a short free-running run whose only purpose is another first use in a fresh process
 	}
 	var jobs []job
+	colds := 32
+	if r.Thorough() {
+		colds = 128
+	}
 	for _, s := range scs {
-		jobs = append(jobs, job{s, false, false}, job{s, true, false}, job{s, true, true})
+		jobs = append(jobs, job{s, false, false, false}, job{s, true, false, false}, job{s, true, true, false})
+		for k := 0; k < colds; k++ {
+			jobs = append(jobs, job{s, true, true, true})
+		}
 	}
 	reports := make([]*c09Report, len(jobs))
 	errs := make([]string, len(jobs))
@@ -138,7 +146,9 @@ func checkC09(r *core.Run) {
 			if j.race {
 				bin, bound = "vsched.race", raceBound
 			}
-			if j.free {
+			if j.cold {
+				args = append(args, "-free", "3")
+			} else if j.free {
 				args = append(args, "-free", fmt.Sprint(free))
 			} else {
 				args = append(args, "-bound", fmt.Sprint(bound), "-budget", fmt.Sprint(budget))
@@ -176,13 +186,18 @@ func checkC09(r *core.Run) {
 		if j.free {
 			mode = "free-running race"
 		}
+		if j.cold {
+			mode = "free-running race, fresh process"
+		}
 		schedules += rep.Schedules
 		decisions += rep.Decisions
 		replays += int64(rep.ReplaysChecked)
 		if rep.DistinctVectors > distinct {
 			distinct = rep.DistinctVectors
 		}
-		per = append(per, fmt.Sprintf("%s [%s] bound=%d schedules=%d per-preemption-count=%v max-points=%d distinct-results=%d/%d sequential capped=%v %.1fs", rep.Scenario, mode, rep.Bound, rep.Schedules, rep.PerBound, rep.MaxPoints, rep.DistinctVectors, rep.SeqVectors, rep.Capped, rep.WallS))
+		if !j.cold {
+			per = append(per, fmt.Sprintf("%s [%s] bound=%d schedules=%d per-preemption-count=%v max-points=%d distinct-results=%d/%d sequential capped=%v %.1fs", rep.Scenario, mode, rep.Bound, rep.Schedules, rep.PerBound, rep.MaxPoints, rep.DistinctVectors, rep.SeqVectors, rep.Capped, rep.WallS))
+		}
 		if rep.Capped {
 			r.NotExhaustive(fmt.Sprintf("%s [%s]: time budget reached before preemption bound %d was completed", rep.Scenario, mode, rep.Bound))
 		}
